@@ -30,7 +30,7 @@ for tag, i1, i2, j1, j2 in sm.get_opcodes():
         added.append((i1, blk))
 # filter out blocks that only exist because /verif moved on (lines present in a but not in b are ignored)
 gen_idx = next(i for i, l in enumerate(a) if l.startswith("def generate"))
-ins = []
+ins = []  # NOTE: interleaves wrongly when both sides inserted before generate(); then merge the block by hand
 for i1, blk in added:
     txt = [l for l in blk]
     if any(l.strip() for l in txt):
